@@ -75,6 +75,8 @@ MC = {
                       "cfg": dec_cfg("TokHIST", "FirstHIST", q(3, 4), ["Refines", "SameBoundary", "OpenAgrees", "ZeroCacheInv"], caps="{0, 1, 2, 1073741824}", spec="CSpec")},
     "contract_adv": {"module": "MC_Contract",
                      "cfg": dec_cfg("TokADV", "FirstADV", q(4, 5), ["Refines", "SameBoundary", "OpenAgrees", "ZeroCacheInv"], spec="CSpec")},
+    "contract_rawcrc": {"module": "MC_Contract",
+                        "cfg": dec_cfg("TokRAWCRC", "FirstRAWCRC", q(8, 9), ["Refines", "SameBoundary", "OpenAgrees", "ZeroCacheInv"], spec="CSpec")},
     "contract_noise": {"module": "MC_Contract",
                        "cfg": dec_cfg("TokNOISEH", "FirstNOISE", q(5, 6), ["Refines", "SameBoundary", "OpenAgrees", "ZeroCacheInv"], spec="CSpec")},
     "contract_pay": {"module": "MC_Contract",
@@ -124,6 +126,8 @@ MC = {
                          "cfg": dec_cfg("TokNOISE", "FirstNOISE", 6, ["MatcherExact"], fallback="drop")},
     "neg_realign_loose": {"module": "MC_Decoder", "expect": "Sound",
                           "cfg": dec_cfg("TokRAWCRC", "FirstRAWCRC", 9, ["Sound"], overrides=["RealignStrict <- RealignLoose"])},
+    "neg_contract_realign_loose": {"module": "MC_Contract", "expect": "Refines",
+                                   "cfg": dec_cfg("TokRAWCRC", "FirstRAWCRC", 9, ["Refines"], spec="CSpec", overrides=["RealignStrict <- RealignLoose"])},
     "neg_rawcrc_accepts": {"module": "MC_Decoder", "expect": "CrcTokenNeverAccepted",
                            "cfg": dec_cfg("TokRAWCRC", "FirstRAWCRC", 7, ["CrcTokenNeverAccepted"])},
     "neg_resync_drop": {"module": "MC_Decoder", "expect": "Resync",
@@ -218,7 +222,7 @@ PROPS = {
                 steps=[{"cmd": "c01", "judge": "J_C01"}]),
     "C02": dict(T("every ok event of the real decoder front-ends (push, decode_streaming, SmlReader over iterator / io::Read) on ADV / INFRAME / RAWCRC (a matching checksum behind any body and behind damaged or misplaced escape sequences) / PADX / NEARSTART / HIST token trees, corpus dumps and "
                   "seeded mutations; a record is (payload, tail of the consumed prefix); distinct = distinct (prefix tail, payload) pairs; every record is an accepted frame; front-ends include small fixed capacities (1/4/6/9) and decoders built with from_buf on a non-empty buffer; CAPTAIL: prefix + lone 0x1b run / literal escape / zeros + a tail of 8..12 bytes, followed by a small frame, through every fixed capacity 0..|p|+1"),
-                mc={"quick": ["sound_adv", "sound_rawcrc", "contract_adv"], "thorough": ["sound_adv", "sound_rawcrc", "contract_adv", "total_hist", "sim_hist"]},
+                mc={"quick": ["sound_adv", "sound_rawcrc", "contract_adv", "contract_rawcrc"], "thorough": ["sound_adv", "sound_rawcrc", "contract_adv", "contract_rawcrc", "total_hist", "sim_hist"]},
                 steps=[{"cmd": "c02", "judge": "J_C02"}]),
     "C05": dict(T("push/finalize/reset histories (HIST), INFRAME, NOISE, corpus, mutations on Decoder<Vec> and Decoder<ArrayBuf<N>> N in {0,1,2,3,8}, each followed by finalize + empty frame + finalize; "
                   "long runs (2^8, 2^16 +-1, 2^17+1) through all front-ends; overflow-checked build; distinct = distinct (capacity, event list); ALLOCFAIL: encode::<Vec<u8>>, Decoder<Vec<u8>>::push_byte and decode_streaming::<Vec<u8>> in a worker process whose allocator refuses every request above 1..512 bytes (outcome: correct result or OutOfMemory; a dead worker is an abort)"),
